@@ -110,7 +110,8 @@ static std::string fen4(const Position& p)
 
 // ---------------------------------------------------------------- game walks
 // policy: 0 uniform, 1 capture-biased, 2 shuffle (prefer undoing own last move: builds repetitions),
-//         3 quiet-biased (long reversible play), 4 promotion/ep/castle hungry, 5 mate/stalemate seeking, 6 castle-then-quiet
+//         3 quiet-biased (long reversible play), 4 promotion/ep/castle hungry, 5 mate/stalemate seeking, 6 castle-then-quiet,
+//         7 recur-after-special (in cmd_games: special move, then both sides out and back twice)
 static Move pick(Position& p, const MoveVec& mv, std::mt19937_64& rng, int policy, Move last_own)
 {
     auto rnd = [&](int n) { return int(rng() % uint64_t(n)); };
@@ -200,7 +201,9 @@ int cmd_games(const Args& a)
         const std::string root = a.i("roots-seq", 0) ? roots[g % roots.size()] : roots[rng() % roots.size()];
         Position p(root);
         out.put("{\"e\":\"reset\",\"fen\":" + jstr(p.fen()) + "}");
-        int policy = policy_opt >= 0 ? policy_opt : int(rng() % 7);
+        int policy = policy_opt >= 0 ? policy_opt : int(rng() % 8);
+        int shuffle_left = 0;
+        Move shuffle_mv[2] = {NO_MOVE, NO_MOVE};
         std::map<std::string, int> seen;
         Move last_own[2] = {NO_MOVE, NO_MOVE};
         // optional prefix: a long game played first (operations only, no observations), so that the observed part of the
@@ -228,7 +231,55 @@ int cmd_games(const Args& a)
             if (mv.n == 0 || p.half_moves() >= 150 || occ >= 5 || ply == maxply) break;
             if (int(rng() % 100) < mvpct)
                 for (int i = 0; i < mv.n; ++i) { out.put(mv_event(p, mv.list[i], mv.n, want_san)); nmv++; }
-            Move m = pick(p, mv, rng, policy, last_own[p.color()]);
+            Move m = NO_MOVE;
+            if (policy == 7)
+            {
+                // recur-after-special: a double pawn push answered by castling (or any castling, promotion, en-passant capture),
+                // then both sides go out and back twice, so that the position right after the special move occurs three times
+                auto quiet_out = [&]() -> Move {
+                    for (int t = 0; t < 4 * mv.n; ++t)
+                    {
+                        Move c = mv.list[rng() % uint64_t(mv.n)];
+                        if (castling(c) != NO_CASTLING || p.piece_at(to(c)) != NO_PIECE) continue;
+                        PieceKind k = make_piece_kind(p.piece_at(from(c)));
+                        if (k == KNIGHT || k == BISHOP || k == QUEEN) return c;
+                    }
+                    return NO_MOVE;
+                };
+                auto in_list = [&](Move c) { for (int i = 0; i < mv.n; ++i) if (mv.list[i] == c) return true; return false; };
+                if (shuffle_left > 0)
+                {
+                    int phase = (8 - shuffle_left) % 4;   // 0,1: out moves of the two sides; 2,3: the way back
+                    if (phase < 2) { m = quiet_out(); shuffle_mv[p.color()] = m; }
+                    else { Move back = shuffle_mv[p.color()] == NO_MOVE ? NO_MOVE : create_move(to(shuffle_mv[p.color()]), from(shuffle_mv[p.color()])); m = in_list(back) ? back : NO_MOVE; }
+                    shuffle_left = m == NO_MOVE ? 0 : shuffle_left - 1;
+                }
+                if (m == NO_MOVE)
+                {
+                    // castle when possible; else a double push after which the opponent can castle; else anything
+                    for (int i = 0; i < mv.n && m == NO_MOVE; ++i)
+                        if (castling(mv.list[i]) != NO_CASTLING && rng() % 4) m = mv.list[i];
+                    for (int i = 0; i < mv.n && m == NO_MOVE; ++i)
+                    {
+                        Move c = mv.list[i];
+                        if (castling(c) != NO_CASTLING || make_piece_kind(p.piece_at(from(c))) != PAWN || std::abs(int(to(c)) - int(from(c))) != 16) continue;
+                        MoveInfo mi = p.do_move(c);
+                        MoveVec r;
+                        r.gen(p);
+                        bool can = false;
+                        for (int j = 0; j < r.n; ++j) can = can || castling(r.list[j]) != NO_CASTLING;
+                        p.undo_move(c, mi);
+                        if (can && rng() % 4) m = c;
+                    }
+                    if (m == NO_MOVE) m = pick(p, mv, rng, rng() % 3 ? 6 : 4, last_own[p.color()]);
+                    bool pawn = castling(m) == NO_CASTLING && make_piece_kind(p.piece_at(from(m))) == PAWN;
+                    bool special = castling(m) != NO_CASTLING || promotion(m) != NO_PIECE_KIND || (pawn && to(m) == p.enpassant_square()) ||
+                                   (castling(m) == NO_CASTLING && p.piece_at(to(m)) != NO_PIECE && rng() % 4 == 0);
+                    if (special) { shuffle_left = 8; shuffle_mv[0] = shuffle_mv[1] = NO_MOVE; }
+                }
+            }
+            else
+                m = pick(p, mv, rng, policy, last_own[p.color()]);
             last_own[p.color()] = m;
             out.put("{\"e\":\"do\",\"m\":" + jstr(p.uci(m)) + "}");
             p.do_move(m);
